@@ -1349,3 +1349,84 @@ eng_harness!(c03_wrongtype_hset, 6, { op_wrongtype(2); });
 eng_harness!(c03_wrongtype_lpop, 6, { op_wrongtype(3); });
 eng_harness!(c03_wrongtype_lrange, 6, { op_wrongtype(4); });
 eng_harness!(c03_wrongtype_hdel, 6, { op_wrongtype(5); });
+
+// ---------------------------------------------------------------- C19: SCAN iteration guarantees
+// group eng2s (2 shards): keys 'a' (shard 0), 'b' (shard 1), 'c' (shard 0)
+const KC: &[u8] = b"c";
+/// full iteration from cursor 0 with COUNT = count; `modify` is applied after the first call.
+/// Returns a bitmask of the keys seen (bit0 'a', bit1 'b', bit2 'c', bit3 anything else) and the number of calls.
+fn scan_iteration(e: &StorageEngine, count: usize, modify: u8) -> (u8, usize) {
+    let mut seen = 0u8;
+    let mut cursor = 0u64;
+    let mut calls = 0usize;
+    loop {
+        let r = std::mem::ManuallyDrop::new(e.scan(0, cursor, None, None, count));
+        calls += 1;
+        match &*r {
+            Ok((next, keys)) => {
+                let mut i = 0;
+                while i < keys.len() {
+                    let k = &keys[i];
+                    if k.len() == 1 && k[0] == b'a' {
+                        seen |= 1;
+                    } else if k.len() == 1 && k[0] == b'b' {
+                        seen |= 2;
+                    } else if k.len() == 1 && k[0] == b'c' {
+                        seen |= 4;
+                    } else {
+                        seen |= 8;
+                    }
+                    i += 1;
+                }
+                cursor = *next;
+            }
+            Err(_) => {
+                assert!(false, "SCAN failed");
+                return (seen, calls);
+            }
+        }
+        if calls == 1 {
+            match modify {
+                1 => {
+                    // delete a key OTHER than the stable ones, smaller than them
+                    let d = e.delete(0, KA);
+                    assert!(matches!(d, Ok(true)));
+                }
+                2 => {
+                    // add a key other than the stable ones
+                    put_raw(e, 0, b"d", Value::String(vec![1]), None);
+                }
+                _ => {}
+            }
+        }
+        if cursor == 0 || calls >= 5 {
+            break;
+        }
+    }
+    (seen, calls)
+}
+fn scan_env() -> StorageEngine {
+    let e = mk_engine1();
+    let v: [u8; 3] = kani::any();
+    put_raw(&e, 0, KA, Value::String(vec![v[0]]), None);
+    put_raw(&e, 0, KB, Value::String(vec![v[1]]), None);
+    put_raw(&e, 0, KC, Value::String(vec![v[2]]), None);
+    e
+}
+fn scan_check(count: usize, modify: u8) {
+    let e = scan_env();
+    let (seen, calls) = scan_iteration(&e, count, modify);
+    kani::cover!(calls >= 2, "iteration took several calls");
+    assert!(calls <= 4, "a full iteration terminates when the key space stops growing");
+    assert!(seen & 8 == 0 || modify == 2, "SCAN returned a key that never existed");
+    // 'b' and 'c' exist from the first to the last call in every variant
+    assert!(seen & 2 != 0 && seen & 4 != 0, "a key that existed throughout the iteration was not returned");
+    if modify == 0 {
+        assert!(seen & 1 != 0, "a key that existed throughout the iteration was not returned");
+    }
+    std::mem::forget(e);
+}
+eng_harness_vec!(c19_scan_count1_stable, 8, { scan_check(1, 0); });
+eng_harness_vec!(c19_scan_count2_stable, 8, { scan_check(2, 0); });
+eng_harness_vec!(c19_scan_count1_add, 8, { scan_check(1, 2); });
+eng_harness_vec!(c19_scan_count1_delete_kf, 8, { scan_check(1, 1); });
